@@ -523,7 +523,17 @@ impl Wal {
         };
         let valid_len = WalReader::open(&self.path)?.valid_prefix_len()?;
         if file.metadata()?.len() > valid_len {
+            #[cfg(nervusdb_verif)]
+            crate::verif::io_file(
+                "wal.recover.set_len",
+                crate::verif::IoOp::SetLen,
+                file,
+                valid_len,
+                &[],
+            )?;
             file.set_len(valid_len)?;
+            #[cfg(nervusdb_verif)]
+            crate::verif::io_file("wal.recover.sync", crate::verif::IoOp::Sync, file, 0, &[])?;
             file.sync_data()?;
         }
         Ok(())
